@@ -126,11 +126,17 @@ def gen_cases(ctx):
     def dress(case):
         case["ck_interval"] = rng.choice([1, 1, 2, 3, 4])
         case["ws_interval"] = rng.choice([-1, 0, 1, 1, 2, 3])
+        case["_ws_regime"] = rng.random()
         case["ck_weights_only"] = rng.random() < 0.12     # weights-only checkpoints: loaded, not resumed
         case["ws_init"] = rng.random() < 0.8
         case["ws_final"] = rng.random() < 0.8
         case["ws_target"] = rng.choice(["solver", "model0", "model_last"])
-        case["N"] = max(case["N"], 2)
+        case["N"] = max(case["N"], 2) if rng.random() < 0.85 else 1
+        if case.get("val_every", 0) > case["N"]:
+            case["val_every"] = 0
+        r = case.pop("_ws_regime")
+        if r < 0.45:      # short trainings relative to the check interval: N < I, N = I, N = I + 1, N << I
+            case["ws_interval"] = max(1, case["N"] + rng.choice([-1, 0, 0, 1, 3, 10]))
         case["default_args"] = rng.random() < 0.5        # library default optimizer_args={} where the optimizer allows
         case["interleave"] = rng.random() < 0.3          # an unrelated fit in the same process before the resumes
         return case
@@ -261,6 +267,9 @@ def run(ctx, rep, cases=None):
             rep.count("channel:" + case["channel"]); rep.count("opt:" + case["opt"]["kind"])
             rep.count(f"ck_interval={case['ck_interval']}"); rep.count(f"ws_interval={case['ws_interval']}")
             rep.count("ws_target:" + case["ws_target"])
+            J_, N_ = case["ws_interval"], case["N"]
+            rep.count("ws-regime:" + ("no-checks(interval<=0)" if J_ <= 0 else "N=1" if N_ == 1 else "N<interval" if N_ < J_ else
+                                      "N=interval" if N_ == J_ else "N=interval+1" if N_ == J_ + 1 else "N>interval+1"))
             for c in case["train"]:
                 if c.get("model") is not None and case["models"][c["model"]]["kind"] in ("poly2", "fcn2"):
                     declared = case["models"][c["model"]].get("order", "xt")
@@ -459,13 +468,29 @@ def judge_files(rep, case, B, rec, obs, tmp, lines, todo, conv=None, label="", m
     checked = [b for b in range(1, N) if J > 0 and (b - 1) % J == 0]
     held = None
     if "min_loss" in loaded:
-        states = dict(obs["states"]); states[len(rec["tens"]) - 1] = obs["end"]
-        held = [b for b in sorted(states) if same_state(loaded["min_loss"], states[b])]
+        # PROPERTY oracle, independent of the model's batch schedule: the callback can only have compared a loss at the
+        # start of an iteration b >= 1 (a loss has been logged then); the file must hold the weights recorded at the
+        # start of such an iteration — not the model after the last step, which no check ever saw — and, among the
+        # iterations of its own phase (b' = b mod check_interval: "every check_interval iterations"), one with the
+        # smallest loss seen.
+        starts = {b: st for b, st in obs["states"].items() if b >= 1}
+        held = [b for b in sorted(starts) if same_state(loaded["min_loss"], starts[b])]
+        lg = rec["logged"]
         if not held:
-            rep.fail(label + "the minimal-loss weight file holds the weights of none of the steps of the run "
-                     f"(checked batches: {checked})", rcase,
-                     detail=dict(file={k: v.tolist() for k, v in loaded["min_loss"].items()}))
-        elif not [b for b in held if b in checked]:
+            after = same_state(loaded["min_loss"], obs["end"])
+            rep.fail(label + f"the minimal-loss weight file (check_interval {J}, {N} steps) holds the weights of none of the iterations at whose "
+                     f"start a loss can have been compared (iteration starts 1..{N - 1})"
+                     + ("; it holds the model AFTER the last step, a state the callback never checked" if after else ""), rcase,
+                     detail=dict(file={k: v.tolist() for k, v in loaded["min_loss"].items()}, N=N, check_interval=J))
+        elif J > 0 and all(x is not None and x == x for x in lg):
+            def minimal(b):
+                return all(lg[b - 1] <= lg[b2 - 1] for b2 in starts if b2 % J == b % J and 0 < b2 <= len(lg))
+            if not any(minimal(b) for b in held if 0 < b <= len(lg)):
+                b = held[0]
+                rep.fail(label + f"the minimal-loss weight file holds the weights of iteration start {held}, where the loss seen was {lg[b - 1]!r}; at "
+                         f"another check of the same phase a smaller loss was seen (losses by iteration start: "
+                         f"{ {b2: lg[b2 - 1] for b2 in sorted(starts) if b2 % J == b % J and 0 < b2 <= len(lg)} })", rcase)
+        if held and not [b for b in held if b in checked]:
             rep.disagree("minimal-loss file: model checks batches with (b-1) % interval == 0", case, held, checked)
     if case["channel"] == "rat" and not conv and not label:
         lines.append(files_request(case)); todo.append(("files", case, rec, present, held, checked))
